@@ -185,6 +185,9 @@ class Representation(RepresentationBaseType):
                     clause='5.3.1.2',
                     msg='MPD@timeShiftBufferDepth is required for a live stream'):
                 return
+            if self.mpd.availabilityStartTime is None:
+                # missing MPD@availabilityStartTime error is reported by manifest.py
+                return
             num_segments = int(
                 (self.mpd.timeShiftBufferDepth.total_seconds() *
                  self.segmentTemplate.timescale) // seg_duration)
@@ -622,6 +625,9 @@ class Representation(RepresentationBaseType):
             return
         if self.mpd.timeShiftBufferDepth is None:
             # missing MPD@timeShiftBufferDepth error is reported by manifest.py
+            return
+        if self.period.availability_start_time() is None:
+            # missing MPD@availabilityStartTime error is reported by manifest.py
             return
         seg_duration = self.segmentTemplate.duration
         timeline = self.segmentTemplate.segmentTimeline
